@@ -10,7 +10,7 @@
    backward path: crop(real(fft2|ifft2(ifftshift(pad(fftshift(T)))))) = Solver.synth at the cropped cells *)
 From Coq Require Import ZArith List Field Ring Lia Bool Arith.
 From BL Require Import Base.Ops Base.Laws Model.Solver Proofs.Sums Proofs.Dft Proofs.StepProofs Proofs.ModeProofs
-  Proofs.SpecProofs Proofs.Plumbing Proofs.C04Proofs Proofs.C03Proofs Proofs.C07Mirror Model.SolverArray.
+  Proofs.SpecProofs Proofs.Plumbing Proofs.C04Proofs Proofs.C03Proofs Proofs.C07Mirror Proofs.C11Proofs Model.SolverArray.
 Import ListNotations.
 Set Default Proof Using "All".
 
@@ -595,6 +595,31 @@ Proof.
   replace (0 / (1 / ofN 3)) with 0 by (rewrite !(Fdiv_def (L_field O L)); ring).
   replace (0 / (1 / ofN 2)) with 0 by (rewrite !(Fdiv_def (L_field O L)); ring).
   rewrite (L_trunc_0 O L). cbn. eexists. reflexivity.
+Qed.
+
+(* ------------------------------------------------------------------ transfer of C11_lowpass *)
+
+Lemma wf_with_modes a nlx nly : wf O a -> wf O (with_modes O a nlx nly).
+Proof. intros [H1 H2 H3 H4 H5 H6]. constructor; assumption. Qed.
+
+(* low-pass on the arrays: an entry of the shifted truncated spectra tfftp / tfftq (what is padded and transformed
+   back) that is retained under two mode counts is the same number under both *)
+Theorem array_lowpass (a : args) (g : geom) nlx' nly' sel k tx ty tx' ty' :
+  wf O a -> geometry O a = inl g ->
+  geometry O (with_modes O a nlx' nly') = inl (geom_modes O g nlx' nly') ->
+  (tx < g_nlx O g)%nat -> (ty < g_nly O g)%nat -> (tx' < nlx')%nat -> (ty' < nly')%nat ->
+  fftfreq (g_nlx O g) tx = fftfreq nlx' tx' -> fftfreq (g_nly O g) ty = fftfreq nly' ty' ->
+  ar_at O (apply_shift O a g (spec_arr O a g sel)) (Z.of_nat k) (Z.of_nat ty) (Z.of_nat tx)
+  = ar_at O (apply_shift O (with_modes O a nlx' nly') (geom_modes O g nlx' nly')
+                         (spec_arr O (with_modes O a nlx' nly') (geom_modes O g nlx' nly') sel))
+          (Z.of_nat k) (Z.of_nat ty') (Z.of_nat tx').
+Proof.
+  intros Hwf Hg Hg' Hx Hy Hx' Hy' Ex Ey.
+  rewrite (shifted_at a g) by assumption.
+  rewrite (shifted_at (with_modes O a nlx' nly') (geom_modes O g nlx' nly'))
+    by (try assumption; apply wf_with_modes; assumption).
+  destruct (lowpass O L a g nlx' nly' tx ty tx' ty' Hx Hy Hx' Hy' Ex Ey) as [Hs Hsh].
+  rewrite Hs, Hsh. reflexivity.
 Qed.
 
 End ArrayRefine.
